@@ -849,3 +849,63 @@ Proof.
   - apply Rep_remove; assumption.
   - apply ix_remove_valid.
 Qed.
+
+(* ---------- methods that read the object: __len__, valid, get_measurements, get_timestamps, get_field_values ---------- *)
+Lemma map_pair_id {A B} (l : list (A * B)) : map (fun '(i, j) => (i, j)) l = l.
+Proof. induction l as [|[a b] l IH]; cbn [map]; [reflexivity | rewrite IH; reflexivity]. Qed.
+Lemma d_has_im_has (m : str) (ms : list (str * list nat)) : d_has m ms = im_has str_eqb m (ubuckets ms).
+Proof. unfold im_has, ubuckets. induction ms as [|[k b] ms IH]; cbn [d_has existsb map fst]. - reflexivity. - change (pyeq m k) with (str_eqb m k). destruct (str_eqb m k); [reflexivity | exact IH]. Qed.
+Lemma d_get_positions (m : str) (ms : list (str * list nat)) : d_get [] m ms = positions (im_get str_eqb m (ubuckets ms)).
+Proof. unfold ubuckets, positions. induction ms as [|[k b] ms IH]; cbn [d_get im_get map fst snd]. - reflexivity.
+  - change (pyeq m k) with (str_eqb m k). destruct (str_eqb m k); [| exact IH]. unfold unit_bucket. rewrite map_map. cbn [fst]. rewrite map_id. reflexivity. Qed.
+Lemma d_get_im_get {V} (k : str) (d : list (str * list (nat * V))) : d_get [] k d = im_get str_eqb k d.
+Proof. induction d as [|[k0 b] d IH]; cbn [d_get im_get]. - reflexivity. - change (pyeq k k0) with (str_eqb k k0). destruct (str_eqb k k0); [reflexivity | exact IH]. Qed.
+
+Theorem gen_len_eq g : gen___len__ g = ix_n (abs g).
+Proof. reflexivity. Qed.
+Theorem gen_valid_eq g : gen_valid g = ix_valid (abs g).
+Proof. reflexivity. Qed.
+Theorem gen_get_measurements_eq g : sort_dedup (gen_get_measurements g) = ix_get_measurements (abs g).
+Proof. unfold gen_get_measurements, ix_get_measurements, im_keys, abs. cbn [ix_meas]. unfold abs_meas. rewrite ubuckets_keys. reflexivity. Qed.
+
+Theorem gen_get_timestamps_eq g m : gen_get_timestamps g m = ix_get_timestamps (abs g) m.
+Proof.
+  unfold gen_get_timestamps, ix_get_timestamps, abs, meas_items. cbn [ix_ts ix_pos ix_meas]. unfold abs_meas, sort_by_second.
+  destruct m as [[|c s]|]; cbn [opt_truthy truthy negb opt_str].
+  - rewrite map_pair_id. reflexivity.
+  - rewrite <- d_has_im_has. match goal with |- context [negb ?t] => destruct t end; cbn [negb]; [| reflexivity].
+    rewrite map_pair_id, <- d_get_positions. f_equal. f_equal. apply filter_ext. intros [t p]. reflexivity.
+  - rewrite map_pair_id. reflexivity.
+Qed.
+
+(* for fk, items in d.items(): if fk != k: continue; rst.extend(h(items)) - with pairwise distinct keys, h of the one bucket of k *)
+Lemma pick_loop {V W} (k : str) (h : list (nat * V) -> list W) : forall (d : list (str * list (nat * V))) rst, NoDup (map fst d) ->
+  fold_left (fun rst (kb : str * list (nat * V)) => if negb (pyeq (fst kb) k) then rst else rst ++ h (snd kb)) d rst =
+  rst ++ (if im_has str_eqb k d then h (im_get str_eqb k d) else []).
+Proof.
+  induction d as [|[k0 b] d IH]; intros rst Hn; cbn [fold_left fst snd]. - cbn. rewrite app_nil_r. reflexivity.
+  - cbn [map fst] in Hn. inversion Hn as [|x l Hx Hn']; subst. unfold im_has. cbn [existsb fst im_get].
+    change (pyeq k0 k) with (str_eqb k0 k). rewrite (str_eqb_sym k k0). destruct (str_eqb k0 k) eqn:E; cbn [negb orb].
+    + apply str_eqb_eq in E. subst k0. rewrite (IH _ Hn'). fold (im_has str_eqb k d).
+      assert (Hno : im_has str_eqb k d = false).
+      { destruct (im_has str_eqb k d) eqn:F; [|reflexivity]. exfalso. apply (im_has_In str_eqb str_eqb_eq) in F. destruct F as [b' Hb']. apply Hx. apply (in_map_fst_pair d k b' Hb'). }
+      rewrite Hno. rewrite app_nil_r. reflexivity.
+    + apply (IH rst Hn').
+Qed.
+
+Theorem gen_get_field_values_eq g k m : NoDup (map fst (_fields g)) -> gen_get_field_values g k m = ix_get_field_values (abs g) k m.
+Proof.
+  intros Hn. unfold gen_get_field_values, ix_get_field_values, abs, meas_items. cbn [ix_meas ix_fields]. unfold abs_meas.
+  destruct m as [[|c s]|]; cbn [opt_truthy truthy negb opt_str].
+  - rewrite <- d_get_im_get. match goal with |- context [if ?t then _ else _] => destruct t eqn:E end; [reflexivity|].
+    rewrite (d_get_absent k [] (_fields g) E). reflexivity.
+  - rewrite <- d_has_im_has. match goal with |- context [negb ?t] => destruct t end; cbn [negb]; [| reflexivity].
+    rewrite <- d_get_positions.
+    match goal with |- fold_left ?F _ _ = _ => rewrite (fold_left_ext F (fun rst (kb : str * list (nat * option num)) => if negb (pyeq (fst kb) k) then rst else
+       rst ++ map (fun i => snd i) (filter (fun i => mem (fst i) (d_get [] (c :: s) (_measurements g))) (snd kb)))) end; [| intros rst [fk items]; reflexivity].
+    rewrite (pick_loop k (fun items : list (nat * option num) => map (fun i => snd i) (filter (fun i => mem (fst i) (d_get [] (c :: s) (_measurements g))) items)) (_fields g) [] Hn). cbn [app].
+    destruct (im_has str_eqb k (_fields g)) eqn:E; [reflexivity|].
+    rewrite (im_get_notin str_eqb str_eqb_eq (_fields g) k (im_has_false str_eqb str_eqb_eq _ k E)). reflexivity.
+  - rewrite <- d_get_im_get. match goal with |- context [if ?t then _ else _] => destruct t eqn:E end; [reflexivity|].
+    rewrite (d_get_absent k [] (_fields g) E). reflexivity.
+Qed.
